@@ -14,6 +14,8 @@
  *   C0 / C1 / C2     close a standard descriptor
  *   SLEEP:<usecs>    simulated sleep (the simulator holds the child; nothing real happens)
  *   IGNTERM          ignore SIGTERM from now on
+ *   HOLD             fork a passive grandchild that inherits stdout/stderr and only pause()s, so the pipes
+ *                    stay open for writing after this process has exited (its pid is reported in aux)
  *   EXIT:<code>      _exit(code)
  *   KILL:<sig>       raise(sig) with default disposition
  * After the last action the child exits with status 0.
@@ -33,7 +35,7 @@
 #define CTL_FD 200
 #define MAX_ACTIONS 64
 
-enum { A_R, A_RA, A_W1, A_W2, A_CAT, A_C0, A_C1, A_C2, A_SLEEP, A_IGNTERM, A_EXIT, A_KILL };
+enum { A_R, A_RA, A_W1, A_W2, A_CAT, A_C0, A_C1, A_C2, A_SLEEP, A_IGNTERM, A_EXIT, A_KILL, A_HOLD };
 enum { ST_RUNNABLE = 0, ST_BLOCKED_READ = 1, ST_BLOCKED_W1 = 2, ST_BLOCKED_W2 = 3, ST_SLEEPING = 4, ST_EXITING = 5 };
 
 struct action {
@@ -104,6 +106,7 @@ static void parse(const char* s) {
     else if (!strcmp(name, "C2")) a->kind = A_C2;
     else if (!strcmp(name, "SLEEP")) a->kind = A_SLEEP;
     else if (!strcmp(name, "IGNTERM")) a->kind = A_IGNTERM;
+    else if (!strcmp(name, "HOLD")) a->kind = A_HOLD;
     else if (!strcmp(name, "EXIT")) a->kind = A_EXIT;
     else if (!strcmp(name, "KILL")) a->kind = A_KILL;
     else continue;
@@ -282,6 +285,30 @@ static void step(void) {
       signal(SIGTERM, SIG_IGN);
       pc++;
       break;
+    case A_HOLD: {
+      /* handshake: this step only completes once the grandchild has dropped the descriptors it must
+       * not hold, so that no pipe state depends on when the grandchild gets the CPU */
+      int hs[2];
+      if (pipe(hs)) _exit(93);
+      pid_t g = fork();
+      if (g == 0) {
+        close(CTL_FD);
+        close(0);
+        close(hs[0]);
+        char ok = 1;
+        if (write(hs[1], &ok, 1) != 1) _exit(92);
+        close(hs[1]);
+        for (;;) pause(); /* passive: never touches the pipes, only keeps them open */
+      }
+      close(hs[1]);
+      char ok = 0;
+      while (read(hs[0], &ok, 1) < 0 && errno == EINTR) {
+      }
+      close(hs[0]);
+      rp.aux = (uint64_t)g;
+      pc++;
+      break;
+    }
     case A_EXIT:
       do_exit_action(1, (int)(a->n & 0xFF));
       break;
